@@ -94,8 +94,9 @@ def gen_hostile(rng):
         h["count"] = rng.choice([1000, 100000])
         h["variant"] = rng.choice(["empty", "empty_then_valid", "tiny_rows"])
     else:
-        h["count"] = rng.choice([10, 5000])
-        h["id"] = rng.choice([0, 1, 16, 17, 4096, 4097, (1 << 32) - 1])
+        h["count"] = rng.choice([1, 10, 5000])
+        h["id"] = rng.choice([0, 1, 16, 17, 4096, 4097, 1 << 16, 1 << 20, 1 << 22, 1 << 24, 1 << 26, (1 << 32) - 1])
+        h["table"] = rng.choice(["name", "prefix", "datatype"])
     return h
 
 
@@ -248,7 +249,7 @@ def build_hostile(rec, rng) -> bytes:
     # entry ids
     rows = [wire.enc_row(("options", _opts()))]
     for i in range(rec["count"]):
-        rows.append(wire.enc_row(("name", rec["id"], f"n{i}")))
+        rows.append(wire.enc_row((rec.get("table", "name"), rec["id"], f"n{i}")))
     rows += _stmt_rows()
     return stream(rows)
 
@@ -319,7 +320,8 @@ def child_main(inputs, start, wfd):
         dt = time.monotonic() - t0
         peak = vm("VmHWM")
         growth = max(0, peak - before)
-        os.write(wfd, f"R {i} {outcome} {detail or '-'} {n} {reads} {growth} {dt:.4f}\n".encode())
+        detail = (detail or "-").replace(" ", "_").replace("\n", "_")[:120]
+        os.write(wfd, f"R {i} {outcome} {detail} {n} {reads} {growth} {dt:.4f}\n".encode())
     os._exit(0)
 
 
